@@ -7,6 +7,7 @@
 package scale
 
 //@ func clamp
+//@   inline
 //@   model xreal
 //@   ensures [range]    !isnan(x) ==> 0 <= result && result <= 1
 //@   ensures [identity] 0 <= x && x <= 1 ==> result == x
@@ -30,4 +31,128 @@ package scale
 //@   ensures [nofalsefail] ok || o.Max < 1 || lo > hi || ticker.CountTicks(hi) > o.Max
 //@   loop 1 (l) invariant minLevel == lo && maxLevel == hi && lo-1 <= l && l+1 <= hi && ticker.CountTicks(l+1) <= o.Max && o.Max >= 1
 //@   loop 2 (l) invariant minLevel == lo && maxLevel == hi && lo <= l && l <= hi+1 && (forall m in lo..l :: ticker.CountTicks(m) > o.Max) && o.Max >= 1
+//@   assigns nothing
+
+// ---------------------------------------------------------------------
+// Linear scale (C16). Model real: finite Min, Max, x, y.
+
+//@ func Linear.Map
+//@   model real
+//@   ensures [degenerate] s.Min == s.Max ==> result == 0.5
+//@   ensures [affine]     s.Min != s.Max && !s.Clamp ==> result == (x - s.Min) / (s.Max - s.Min)
+//@   ensures [clamped]    s.Min != s.Max && s.Clamp ==> result == min(1, max(0, (x - s.Min) / (s.Max - s.Min)))
+//@   assigns nothing
+
+//@ func Linear.Unmap
+//@   model real
+//@   ensures [affine] result == y*(s.Max - s.Min) + s.Min
+//@   assigns nothing
+
+//@ func Linear.SetClamp
+//@   model real
+//@   requires s != nil
+//@   ensures [set]   s.Clamp == clamp
+//@   ensures [frame] s.Min == old(s.Min) && s.Max == old(s.Max) && s.Base == old(s.Base)
+//@   assigns s.Clamp
+
+// Consequences of the closed forms above (the laws the property states):
+// end points, strict monotonicity, mutual inverses.
+//@ lemma linear_endpoints(lo real, hi real)
+//@   model real
+//@   requires lo != hi
+//@   ensures (lo - lo)/(hi - lo) == 0 && (hi - lo)/(hi - lo) == 1
+//@ lemma linear_monotone(lo real, hi real, a real, b real)
+//@   model real
+//@   requires lo != hi && a < b
+//@   ensures lo < hi ==> (a - lo)/(hi - lo) < (b - lo)/(hi - lo)
+//@   ensures lo > hi ==> (a - lo)/(hi - lo) > (b - lo)/(hi - lo)
+//@ lemma linear_unmap_map(lo real, hi real, x real)
+//@   model real
+//@   requires lo != hi
+//@   ensures ((x - lo)/(hi - lo))*(hi - lo) + lo == x
+//@ lemma linear_map_unmap(lo real, hi real, y real)
+//@   model real
+//@   requires lo != hi
+//@   ensures ((y*(hi - lo) + lo) - lo)/(hi - lo) == y
+//@ lemma linear_clamp_inside(lo real, hi real, x real)
+//@   model real
+//@   requires lo != hi && min(lo, hi) <= x && x <= max(lo, hi)
+//@   ensures 0 <= (x - lo)/(hi - lo) && (x - lo)/(hi - lo) <= 1
+
+// ---------------------------------------------------------------------
+// Log scale (C16). Model real; log and exp are uninterpreted functions
+// constrained by the axioms of DESIGN.md section 3 (A3).
+
+//@ func NewLog
+//@   model real
+//@   results l, err
+//@   let lo = min(min, max)
+//@   let hi = max(min, max)
+//@   ensures [reject] err != nil <==> (base <= 1 || (lo <= 0 && hi >= 0))
+//@   ensures [accept] err == nil ==> l.Min == lo && l.Max == hi && l.Base == base && !l.Clamp
+//@   assigns nothing
+
+//@ func Log.ebounds
+//@   inline
+//@   model real
+//@   requires s != nil
+//@   results neg, lo, hi
+//@   ensures [pos] s.Min >= 0 ==> !neg && lo == s.Min && hi == s.Max
+//@   ensures [neg] s.Min < 0 ==> neg && lo == -s.Max && hi == -s.Min
+//@   assigns nothing
+
+//@ spec lmin(s Log) float64 = s.Min < 0 ? -s.Max : s.Min
+//@ spec lmax(s Log) float64 = s.Min < 0 ? -s.Min : s.Max
+//@ spec lfrac(s Log, ax float64) float64 = (log(ax) - log(lmin(s))) / (log(lmax(s)) - log(lmin(s)))
+
+//@ func Log.Map
+//@   model real
+//@   let ax = s.Min < 0 ? -x : x
+//@   requires log(lmin(s)) != log(lmax(s)) || lmin(s) == lmax(s)
+//@   ensures [nan]        ax <= 0 ==> isnan(result)
+//@   ensures [degenerate] ax > 0 && lmin(s) == lmax(s) ==> result == 0.5
+//@   ensures [affine-pos] ax > 0 && lmin(s) != lmax(s) && !s.Clamp && s.Min >= 0 ==> result == lfrac(s, ax)
+//@   ensures [affine-neg] ax > 0 && lmin(s) != lmax(s) && !s.Clamp && s.Min < 0 ==> result == 1 - lfrac(s, ax)
+//@   ensures [clamp-pos]  ax > 0 && lmin(s) != lmax(s) && s.Clamp && s.Min >= 0 ==> result == min(1, max(0, lfrac(s, ax)))
+//@   ensures [clamp-neg]  ax > 0 && lmin(s) != lmax(s) && s.Clamp && s.Min < 0 ==> result == min(1, max(0, 1 - lfrac(s, ax)))
+//@   assigns nothing
+
+//@ func Log.Unmap
+//@   model real
+//@   ensures [pos] s.Min >= 0 ==> result == exp(y*(log(lmax(s)) - log(lmin(s))) + log(lmin(s)))
+//@   ensures [neg] s.Min < 0 ==> result == -exp((1-y)*(log(lmax(s)) - log(lmin(s))) + log(lmin(s)))
+//@   assigns nothing
+
+//@ func Log.SetClamp
+//@   model real
+//@   requires s != nil
+//@   ensures [set]   s.Clamp == clamp
+//@   ensures [frame] s.Min == old(s.Min) && s.Max == old(s.Max) && s.Base == old(s.Base)
+//@   assigns s.Clamp
+
+// The laws of the property as consequences of the closed forms, using only
+// that exp and log are mutually inverse and log is strictly increasing.
+//@ lemma log_unmap_map(lo real, hi real, x real)
+//@   model real
+//@   requires 0 < lo && lo < hi && x > 0 && log(lo) < log(hi) && exp(log(x)) == x
+//@   ensures exp(((log(x) - log(lo))/(log(hi) - log(lo)))*(log(hi) - log(lo)) + log(lo)) == x
+//@ lemma log_endpoints(lo real, hi real)
+//@   model real
+//@   requires 0 < lo && lo < hi && log(lo) < log(hi)
+//@   ensures (log(lo) - log(lo))/(log(hi) - log(lo)) == 0 && (log(hi) - log(lo))/(log(hi) - log(lo)) == 1
+
+// ---------------------------------------------------------------------
+// QQ (C16): composition of two Quantitative scales.
+
+//@ assume pure Quantitative.Map
+//@ assume pure Quantitative.Unmap
+
+//@ func QQ.Map
+//@   model real
+//@   ensures [compose] result == q.Dest.Unmap(q.Src.Map(x))
+//@   assigns nothing
+
+//@ func QQ.Unmap
+//@   model real
+//@   ensures [compose] result == q.Src.Unmap(q.Dest.Map(x))
 //@   assigns nothing
